@@ -26,6 +26,7 @@ func init() {
 			"C15.R2 divisor != 0 by guard dominance (E6) incl. the clamp idiom (phi of guarded value and constant)",
 			"C15.R3 index / slice / make / Uint16-32-64 read safety by guard dominance (E6) with loop-invariant inference and parity sharpening; lifted to callers when the function cannot prove it",
 			"C15.R4 header layout agreement (writer sequence vs reader offsets) and TLV tag coverage",
+			"C15.R7 TLV byte accounting in the encoder: for every item, the bytes written (loop trip counts included) equal 8 x the value written as its length byte, identically in the slice lengths (n = c(n/c) + n%c normalisation)",
 			"C15.R5 sizes of the buffers passed to io.ReadFull / binary.Read in ReadPacket",
 			"C15.R6 reachability of panic / log.Fatal from the decoder and accessors",
 		},
@@ -46,6 +47,7 @@ func runC15(p *Prog, r *Report) {
 	r.MinInstances["C15.R4"] = 7
 	r.MinInstances["C15.R5"] = 5
 	r.MinInstances["C15.R6"] = 1
+	r.MinInstances["C15.R7"] = 4
 	var fns []*ssa.Function
 	for _, fn := range p.LibFuncs() {
 		if inPackets(fn) {
@@ -61,6 +63,7 @@ func runC15(p *Prog, r *Report) {
 	c15R4(p, r)
 	c15R5(p, r)
 	c15R6(p, r, fns)
+	c15R7(p, r)
 }
 
 // ---- R1 -----------------------------------------------------------------------------------
